@@ -85,11 +85,19 @@ Proof.
   destruct (plain_okey_inv c Hc) as [H1 [H2 [H3 H4]]].
   rewrite mem_cons, (aeqb_sym EQ c), H2. now apply IH.
 Qed.
+(* for values that are not lists, fmt(key, val) is key or key=val *)
+Definition opt_fmt_old (kv : str * oval) : str :=
+  match snd kv with
+  | OStr [] => fst kv
+  | v => fst kv ++ [EQ] ++ oval_str true v
+  end.
+Lemma opt_fmt_flat k v : oval_ok v = true -> opt_fmt (k, v) = opt_fmt_old (k, v).
+Proof. destruct v as [[|c s]|b|l]; try reflexivity. discriminate. Qed.
 Lemma item_fmt kv : opt_ok kv = true -> item_ok (opt_fmt kv) = true.
 Proof.
   destruct kv as [k v]. unfold opt_ok, okey_ok. cbn [fst snd]. intros H. apply andb_true_iff in H as [Hk Hv].
   repeat (apply andb_true_iff in Hk as [Hk ?]).
-  pose proof (lvl_ok_key k H1) as LK. unfold item_ok, opt_fmt. cbn [fst snd].
+  pose proof (lvl_ok_key k H1) as LK. unfold item_ok. rewrite (opt_fmt_flat k v Hv). unfold opt_fmt_old. cbn [fst snd].
   destruct v as [s|b|l]; [| |discriminate].
   - cbn [oval_ok] in Hv. repeat (apply andb_true_iff in Hv as [Hv ?]). unfold item_ok in Hv.
     destruct s as [|c s]; [now rewrite LK|]. cbn [oval_str]. rewrite lvl_ok_app, LK. cbn [app lvl_ok].
@@ -113,11 +121,12 @@ Lemma add1_fmt o kv : opt_ok kv = true -> str_in (fst kv) (map fst o) = false ->
 Proof.
   destruct kv as [k v]. unfold opt_ok, okey_ok. cbn [fst snd]. intros H Hnew. apply andb_true_iff in H as [Hk Hv].
   repeat (apply andb_true_iff in Hk as [Hk ?]). apply str_eqb_true in H0. apply negb_true_iff in H. apply negb_true_iff in Hk.
-  assert (T : strip (opt_fmt (k, v)) = opt_fmt (k, v) /\
-              split_first EQ (opt_fmt (k, v)) = (k, match v with OStr [] => None | _ => Some (oval_str true v) end)
+  rewrite !(opt_fmt_flat k v Hv).
+  assert (T : strip (opt_fmt_old (k, v)) = opt_fmt_old (k, v) /\
+              split_first EQ (opt_fmt_old (k, v)) = (k, match v with OStr [] => None | _ => Some (oval_str true v) end)
               /\ oarg (match (match v with OStr [] => None | _ => Some (oval_str true v) end) with Some r => strip r | None => [] end) = v
-              /\ opt_fmt (k, v) <> []).
-  { unfold opt_fmt. cbn [fst snd]. destruct v as [s|b|l]; [| |discriminate].
+              /\ opt_fmt_old (k, v) <> []).
+  { unfold opt_fmt_old. cbn [fst snd]. destruct v as [s|b|l]; [| |discriminate].
     - cbn [oval_ok] in Hv. repeat (apply andb_true_iff in Hv as [Hv ?]). apply str_eqb_true in H3. apply negb_true_iff in H2.
       destruct s as [|c s].
       + repeat split; [exact H0|now apply split_first_free, mem_key_eq|destruct k; [discriminate|discriminate]].
@@ -138,12 +147,12 @@ Proof.
       + destruct b; reflexivity.
       + destruct k; discriminate. }
   destruct T as [T1 [T2 [T3 T4]]].
-  assert (G1 : opts_add1 o (opt_fmt (k, v)) = o ++ [(k, v)]).
-  { assert (N : is_nil (opt_fmt (k, v)) = false) by (destruct (opt_fmt (k, v)); [contradiction|reflexivity]).
+  assert (G1 : opts_add1 o (opt_fmt_old (k, v)) = o ++ [(k, v)]).
+  { assert (N : is_nil (opt_fmt_old (k, v)) = false) by (destruct (opt_fmt_old (k, v)); [contradiction|reflexivity]).
     unfold opts_add1. rewrite T1, N, T2, H0, T3, H. now apply assoc_set_new. }
   split; [exact G1|].
   unfold opts_add1 at 1. unfold strip at 1. cbn [lstrip]. change (is_space SP) with true. cbv iota.
-  fold (strip (opt_fmt (k, v))). exact G1.
+  fold (strip (opt_fmt_old (k, v))). exact G1.
 Qed.
 
 Fixpoint keys_distinct (o : opts) : bool :=
